@@ -103,12 +103,12 @@ func buildSys(cf config, ops, obs []coll.Op) *seqx.Sys {
 	}
 	step := func(impl, model interface{}, op coll.Op) string {
 		m := model.(*coll.Dict)
-		if op.Method == "SetMax" {
-			// lowering the bound below the current size is outside the property (it defines the
-			// bound for insertions, not what SetMax does to existing entries): disabled transition
-			if mx := int(op.Args[0].Int()); mx > 0 && len(m.Ents) > mx {
-				return ""
-			}
+		if op.Method == "Sort" && m.Max > 0 && len(m.Ents) > m.Max {
+			// SetMax does not evict by itself, so a structure may hold more than the bound until the next
+			// insertion trims it (that is modelled: a seeded change trimmed by one entry only). Sort
+			// rebuilds the structure by re-inserting, which trims in an order the property does not
+			// define: sorting an over-full structure is a disabled transition
+			return ""
 		}
 		res := coll.Apply(impl, op)
 		if op.Method == "ToString" || op.Method == "ToFormatString" {
